@@ -165,6 +165,8 @@ def collapses(t):
 # ---- the oracle ------------------------------------------------------------------------------------
 def judge(ctx, case):
     """case = {"items": [[sign, item], ...], "style": "full"|"min", "response": "y"|None}"""
+    if ctx.skip():
+        return None
     items = [(s, _tup(it)) for s, it in case["items"]]
     renderer = ra.render_full if case.get("style", "full") == "full" else ra.render_min
     body = ra.render_rhs(items, renderer)
@@ -186,7 +188,7 @@ def judge(ctx, case):
     ctx.count(formula, nontrivial(items), classes)
     full = dict(case, formula=formula)
     try:
-        with core.Silence():
+        with core.Guard():
             got_resp, got_c, got_g = impl_model(formula)
     except Exception as e:  # pylint: disable=broad-except
         if empty_effect:
@@ -233,7 +235,7 @@ def localise(items):
             if sub[0] == "var" or empty_slash_left(sub):
                 continue
             try:
-                with core.Silence():
+                with core.Guard():
                     _, c, g = impl_model("y ~ " + ra.render_full(sub))
             except Exception:  # pylint: disable=broad-except
                 continue
